@@ -171,7 +171,10 @@ func VerifC02Reelected() {
 				continue
 			}
 			fl := f.p.log
-			vAssert(fl.HighWatermark() <= hw, what+": a follower's high watermark never exceeds the leader's")
+			// (a follower may know a HIGHER high watermark than a newly elected leader,
+			// which learned it one fetch late as a follower - that lag is normal; what
+			// must hold is that everything the follower considers committed the leader holds)
+			vAssert(fl.HighWatermark() <= lead.NewestOffset(), what+": what a follower considers committed the leader holds")
 			// every live replica took part in every leader change (it reconciled
 			// its log with each new leader), so its log is a copy of a prefix of
 			// the current leader's - also above its high watermark
